@@ -134,6 +134,12 @@ struct World
 	bool op_kernel(std::string const& ctx, toks const& op);
 	bool op_net(std::string const& ctx, toks const& op);
 	bool op_inject(std::string const& ctx, toks const& op);
+	// application-level test servers (each in its own file)
+	bool op_http(std::string const& ctx, toks const& op);    // simdrv_http.cpp: sim::http_server   (w<k>)
+	bool op_proxy(std::string const& ctx, toks const& op);   // simdrv_proxy.cpp: sim::http_proxy   (x<k>)
+	bool op_socks(std::string const& ctx, toks const& op);   // simdrv_socks.cpp: sim::socks_server (k<k>)
+	struct Srv;                  // their objects
+	std::shared_ptr<Srv> srv;
 	sim::aux::packet make_packet(std::vector<std::string> const& route, std::uint64_t id
 		, std::string const& type, int len, int ovh, bool cb, std::string const& from);
 
